@@ -77,6 +77,13 @@ class ExprMixin:
       if name in e:
         return e[name]
       e = e.get('__parent__')
+    amap = self.__dict__.get('alpha_map')
+    if amap and self.spec_mode and name.startswith('idx_') and name[4:] in amap and name not in self.ghost:
+      return self.lookup('idx_' + amap[name[4:]], env)       # the index ghost of a `for x in seq` loop is named after x
+    if amap and self.spec_mode and name in amap and name not in self.ghost:
+      # the contract names a local of the function as it was when the contract was written; the function now differs
+      # from that version only by a renaming of locals (world.alpha_form): read the clause through the renaming
+      return self.lookup(amap[name], env)
     if name in self.ghost:
       return self.ghost[name]
     if name in self.reg.ghost_factories:
